@@ -148,7 +148,7 @@ func (w *W) Str(s []byte, enc string) string {
 		enc = "raw"
 		if _, ok := IsIntString(s); ok && w.Rng.Chance(3, 4) {
 			enc = "int"
-		} else if len(s) >= 4 && len(s) <= 4096 && (w.Rng.Chance(1, 5) || (len(s) >= 260 && w.Rng.Chance(1, 2))) {
+		} else if len(s) >= 4 && len(s) <= 9000 && (w.Rng.Chance(1, 5) || (len(s) >= 260 && w.Rng.Chance(1, 2))) {
 			enc = "lzf"
 		}
 	}
